@@ -24,7 +24,7 @@ THEOREMS = {
 }
 RULE = ("case = (state kind, n, h, parameter scale, parameters); generated with every weight/bias = scale*N(0,1) "
         "(scale in {0,0.1,1,3,10,30}); all 2^n basis states evaluated in vector and batched call forms; "
-        "non-trivial iff some visible bias != 0 and some hidden bias != 0 and (h != n or scale >= 1); distinct by hash of the case")
+        "each case is evaluated, then re-parametrised IN PLACE and evaluated again on the same state object and the same space tensors (history); non-trivial iff some visible bias != 0 and some hidden bias != 0 and (h != n or scale >= 1); distinct by hash of the case")
 
 
 def brute_marginal(p, v):
@@ -40,13 +40,27 @@ def brute_marginal(p, v):
     return tot
 
 
-def one_case(ctx, kind, n, h, scale, am, ph, tag=None):
-    case = {"kind": kind, "n": n, "h": h, "scale": scale, "am": am, "ph": ph}
-    ctx.current_case = case
+def one_case(ctx, kind, n, h, scale, am, ph, tag=None, am2=None, ph2=None):
+    """evaluate at (am, ph); then, on the SAME state object and the SAME space tensors, overwrite the parameters with
+    (am2, ph2) and evaluate again (history: results must follow the current parameters, not earlier calls)"""
     st = qc.make_positive(n, h, am) if kind == "pos" else qc.make_complex(n, h, am, ph)
     rows = qc.all_states(n)
     space_t = torch.tensor(rows, dtype=torch.double)
     gen_space = st.generate_hilbert_space()
+    _eval(ctx, st, rows, space_t, gen_space, kind, n, h, scale, am, ph, None)
+    if am2 is not None:
+        qc.set_rbm(st.rbm_am, am2)
+        if kind == "cplx":
+            qc.set_rbm(st.rbm_ph, ph2)
+        ctx.count("history:reparametrised-same-objects")
+        _eval(ctx, st, rows, space_t, gen_space, kind, n, h, scale, am2, ph2, {"am": am, "ph": ph})
+
+
+def _eval(ctx, st, rows, space_t, gen_space, kind, n, h, scale, am, ph, before):
+    case = {"kind": kind, "n": n, "h": h, "scale": scale, "am": am, "ph": ph}
+    if before is not None:
+        case = {"kind": kind, "n": n, "h": h, "scale": scale, "am": before["am"], "ph": before["ph"], "am2": am, "ph2": ph}
+    ctx.current_case = case
     # ---------------- implementation values
     E = st.rbm_am.effective_energy(space_t).numpy().copy()
     big = float(np.max(np.abs(E))) > 600.0
@@ -141,7 +155,9 @@ def gen_cases(ctx, thorough):
 def run(ctx):
     ctx.rule = RULE
     for (kind, n, h, scale, am, ph) in gen_cases(ctx, ctx.tier == "thorough"):
-        one_case(ctx, kind, n, h, scale, am, ph)
+        am2 = qc.rand_rbm_params(ctx.rng, n, h, min(scale, 3.0) if scale else 0.5)
+        ph2 = qc.rand_rbm_params(ctx.rng, n, h, 1.0) if kind == "cplx" else None
+        one_case(ctx, kind, n, h, scale, am, ph, am2=am2, ph2=ph2)
 
 
 def search(ctx):
@@ -149,10 +165,12 @@ def search(ctx):
     drv, ctx.driver = ctx.driver, None
     try:
         for (kind, n, h, scale, am, ph) in gen_cases(ctx, True):
-            one_case(ctx, kind, n, h, scale, am, ph)
+            am2 = qc.rand_rbm_params(ctx.rng, n, h, 1.0)
+            ph2 = qc.rand_rbm_params(ctx.rng, n, h, 1.0) if kind == "cplx" else None
+            one_case(ctx, kind, n, h, scale, am, ph, am2=am2, ph2=ph2)
     finally:
         ctx.driver = drv
 
 
 def replay(ctx, case):
-    one_case(ctx, case["kind"], case["n"], case["h"], case["scale"], case["am"], case["ph"])
+    one_case(ctx, case["kind"], case["n"], case["h"], case["scale"], case["am"], case["ph"], am2=case.get("am2"), ph2=case.get("ph2"))
